@@ -106,6 +106,9 @@ Proof.
       nia.
 Qed.
 
+Lemma zoom_idx_contract sf n : 1 <= sf -> 1 <= n -> zoom_contract sf n (zoom_idx sf n).
+Proof. intros H1 H2 o Ho. split; [apply zoom_idx_range | apply zoom_idx_near]; assumption. Qed.
+
 (* ================================================================== min / max folds *)
 
 Lemma In_zrange off n x : In x (zrange off n) <-> off <= x < off + n.
@@ -327,23 +330,21 @@ Section RangeProofs.
     - unfold qz. ring.
   Qed.
 
-  Hypothesis Hsf : 1 <= sf.
-  Hypothesis HR : 1 <= R.
-  Hypothesis HC : 1 <= C.
+  Variables zrow zcol : Z -> Z.
+  Hypothesis Hzr : zoom_contract sf R zrow.
+  Hypothesis Hzc : zoom_contract sf C zcol.
 
   (* the grids of the finer level, as the code computes them: the property's intervals with
      scale_factor * int(user interval of the coarser level) as the fallback interval *)
   Theorem next_grids_as_computed :
     finer_spec ws marge sf R C (px D) (px V) fmin fmax (sf * R) (sf * C)
-               (px (next_grids IB ws marge sf D V umin umax)).
+               (px (next_grids IB ws marge sf D V umin umax zrow zcol)).
   Proof.
     intros r c Hr Hc. unfold next_grids, disparity_range, rows, cols. cbn [px].
-    pose proof (zoom_idx_range sf R r Hsf HR Hr) as Rr.
-    pose proof (zoom_idx_range sf C c Hsf HC Hc) as Rc.
-    destruct (range_at_prescribed (zoom_idx sf R r) (zoom_idx sf C c) Rr Rc) as (lo & hi & E & P).
-    exists (zoom_idx sf R r), (zoom_idx sf C c), lo, hi.
-    split; [apply zoom_idx_near; assumption|]. split; [apply zoom_idx_near; assumption|].
-    repeat split; try lia; assumption.
+    destruct (Hzr r Hr) as [Rr Nr]. destruct (Hzc c Hc) as [Rc Nc].
+    destruct (range_at_prescribed (zrow r) (zcol c) Rr Rc) as (lo & hi & E & P).
+    exists (zrow r), (zcol c), lo, hi.
+    split; [exact Nr|]. split; [exact Nc|]. split; [exact Rr|]. split; [exact Rc|]. split; assumption.
   Qed.
 End RangeProofs.
 
@@ -476,14 +477,14 @@ End Ext.
 
 (* under the guard "the user interval of the coarser level is made of integers", the finer
    level searches what the property says, the WHOLE user interval included *)
-Theorem next_grids_guarded ws marge sf D V umin umax :
+Theorem next_grids_guarded ws marge sf D V umin umax zrow zcol :
   ws = 2 * offset ws + 1 -> 0 <= offset ws -> ws <= nr D -> ws <= nc D ->
-  1 <= sf -> 1 <= nr D -> 1 <= nc D ->
+  zoom_contract sf (nr D) zrow -> zoom_contract sf (nc D) zcol ->
   integral umin -> integral umax ->
   finer_spec ws marge sf (nr D) (nc D) (px D) (px V) (umin * inject_Z sf)%Q (umax * inject_Z sf)%Q
-             (sf * nr D) (sf * nc D) (px (next_grids IB ws marge sf D V umin umax)).
+             (sf * nr D) (sf * nc D) (px (next_grids IB ws marge sf D V umin umax zrow zcol)).
 Proof.
-  intros H1 H2 H3 H4 H5 H6 H7 I1 I2.
+  intros H1 H2 H3 H4 H5 H6 I1 I2.
   eapply finer_spec_compat; [| |apply next_grids_as_computed; assumption].
   - unfold integral in I1. rewrite I1. reflexivity.
   - unfold integral in I2. rewrite I2. reflexivity.
@@ -535,9 +536,11 @@ Lemma finer_grids_nth ib marge sf : forall lvls user i l,
   nth_error lvls i = Some l ->
   nth_error (finer_grids ib marge sf user lvls) i =
   Some (let u := iter_scale sf (S i) user in
-        (GMap (next_grids ib (lv_ws l) marge sf (fst (lv_left l)) (snd (lv_left l)) (fst u) (snd u)),
+        (GMap (next_grids ib (lv_ws l) marge sf (fst (lv_left l)) (snd (lv_left l)) (fst u) (snd u)
+                          (fst (lv_zoom l)) (snd (lv_zoom l))),
          option_map (fun dv => GMap (next_grids ib (lv_ws l) marge sf (fst dv) (snd dv)
-                                                 (fst (right_interval u)) (snd (right_interval u))))
+                                                 (fst (right_interval u)) (snd (right_interval u))
+                                                 (fst (lv_zoom l)) (snd (lv_zoom l))))
                     (lv_right l))).
 Proof.
   induction lvls as [|l0 rest IH]; intros user i l Hn.
@@ -596,8 +599,9 @@ Proof.
 Qed.
 
 (* well-formedness of the products of a level, as the theorems need them *)
-Definition level_ok (ws : Z) (D : arr (option Q)) : Prop :=
-  ws = 2 * offset ws + 1 /\ 0 <= offset ws /\ ws <= nr D /\ ws <= nc D.
+Definition level_ok (sf ws : Z) (D : arr (option Q)) (zm : (Z -> Z) * (Z -> Z)) : Prop :=
+  ws = 2 * offset ws + 1 /\ 0 <= offset ws /\ ws <= nr D /\ ws <= nc D /\
+  zoom_contract sf (nr D) (fst zm) /\ zoom_contract sf (nc D) (snd zm).
 
 (* level i of the list (coarse scale s + 1, s + 1 = n - 1 - i) gives the grids of execution
    i + 1 (scale s).  [guard] : sf^(s+1) divides both user bounds. *)
@@ -606,11 +610,11 @@ Theorem finer_interval_run marge sf dmin dmax H W n wr lvls i l s :
   (sf ^ Z.of_nat (S s) | dmin) -> (sf ^ Z.of_nat (S s) | dmax) ->
   exists g gr,
     nth_error (run_grids IB marge sf dmin dmax H W n wr lvls) (S i) = Some (GMap g, gr) /\
-    (level_ok (lv_ws l) (fst (lv_left l)) ->
+    (level_ok sf (lv_ws l) (fst (lv_left l)) (lv_zoom l) ->
      let D := fst (lv_left l) in let V := snd (lv_left l) in let u := user_interval dmin dmax sf s in
      nr g = sf * nr D /\ nc g = sf * nc D /\
      finer_spec (lv_ws l) marge sf (nr D) (nc D) (px D) (px V) (fst u) (snd u) (sf * nr D) (sf * nc D) (px g)) /\
-    (forall dv, lv_right l = Some dv -> level_ok (lv_ws l) (fst dv) ->
+    (forall dv, lv_right l = Some dv -> level_ok sf (lv_ws l) (fst dv) (lv_zoom l) ->
      let D := fst dv in let V := snd dv in let u := mirrored (user_interval dmin dmax sf s) in
      exists g', gr = Some (GMap g') /\ nr g' = sf * nr D /\ nc g' = sf * nc D /\
      finer_spec (lv_ws l) marge sf (nr D) (nc D) (px D) (px V) (fst u) (snd u) (sf * nr D) (sf * nc D) (px g')).
@@ -628,11 +632,11 @@ Proof.
   assert (I2 : integral (snd u)).
   { eapply integral_compat; [symmetry; exact U2|]. apply integral_user; assumption. }
   eexists. eexists. split; [reflexivity|]. split.
-  - intros (O1 & O2 & O3 & O4). cbv zeta. split; [reflexivity|]. split; [reflexivity|].
+  - intros (O1 & O2 & O3 & O4 & O5 & O6). cbv zeta. split; [reflexivity|]. split; [reflexivity|].
     eapply finer_spec_compat; [| |apply next_grids_guarded; try assumption; try lia].
     + rewrite U1. exact N1.
     + rewrite U2. exact N2.
-  - intros dv Hdv (O1 & O2 & O3 & O4). rewrite Hdv. cbn [option_map]. cbv zeta.
+  - intros dv Hdv (O1 & O2 & O3 & O4 & O5 & O6). rewrite Hdv. cbn [option_map]. cbv zeta.
     eexists. split; [reflexivity|]. split; [reflexivity|]. split; [reflexivity|].
     eapply finer_spec_compat; [| |apply next_grids_guarded; try assumption; try lia].
     + unfold right_interval, mirrored. cbn [fst snd]. rewrite U2. rewrite <- N2. ring.
@@ -1134,11 +1138,11 @@ Definition finer_level_holds (marge sf dmin dmax H W : Z) (n : nat) (wr : bool) 
            (i : nat) (l : level) (s : nat) : Prop :=
   exists g gr,
     nth_error (run_grids IB marge sf dmin dmax H W n wr lvls) (S i) = Some (GMap g, gr) /\
-    (level_ok (lv_ws l) (fst (lv_left l)) ->
+    (level_ok sf (lv_ws l) (fst (lv_left l)) (lv_zoom l) ->
      let D := fst (lv_left l) in let V := snd (lv_left l) in let u := user_interval dmin dmax sf s in
      nr g = sf * nr D /\ nc g = sf * nc D /\
      finer_spec (lv_ws l) marge sf (nr D) (nc D) (px D) (px V) (fst u) (snd u) (sf * nr D) (sf * nc D) (px g)) /\
-    (forall dv, lv_right l = Some dv -> level_ok (lv_ws l) (fst dv) ->
+    (forall dv, lv_right l = Some dv -> level_ok sf (lv_ws l) (fst dv) (lv_zoom l) ->
      let D := fst dv in let V := snd dv in let u := mirrored (user_interval dmin dmax sf s) in
      exists g', gr = Some (GMap g') /\ nr g' = sf * nr D /\ nc g' = sf * nc D /\
      finer_spec (lv_ws l) marge sf (nr D) (nc D) (px D) (px V) (fst u) (snd u) (sf * nr D) (sf * nc D) (px g')).
@@ -1153,7 +1157,8 @@ Proof. exact (finer_interval_run marge sf dmin dmax H W n wr lvls i l s). Qed.
    coarse map (window 3) whose centre is invalid: every coarse pixel is invalid or on the
    border, the whole level 0 must search [-7, 4] and searches 3 * int(-7/3), 3 * int(4/3) *)
 Definition wit_level : level :=
-  mkLevel 3 (mkArr 3 3 (fun _ _ => Some 0%Q), mkArr 3 3 (fun r c => if (r =? 1) && (c =? 1) then 1 else 0)) None.
+  mkLevel 3 (mkArr 3 3 (fun _ _ => Some 0%Q), mkArr 3 3 (fun r c => if (r =? 1) && (c =? 1) then 1 else 0)) None
+          (zoom_idx 3 3, zoom_idx 3 3).
 
 Lemma witness_grid :
   exists g, nth_error (run_grids IB 0 3 (-7) 4 9 9 2 false [wit_level]) 1 = Some (GMap g, None) /\
@@ -1169,8 +1174,9 @@ Proof.
   destruct (Hfull 0 3 (-7) 4 9 9 2%nat false [wit_level] 0%nat wit_level 0%nat) as (g & gr & Hn & Hl & _);
     try reflexivity; try lia.
   destruct witness_grid as (g' & Hn' & Hg'). rewrite Hn' in Hn. injection Hn as <- _.
-  assert (Hok : level_ok (lv_ws wit_level) (fst (lv_left wit_level))).
-  { unfold level_ok. vm_compute. repeat split; discriminate. }
+  assert (Hok : level_ok 3 (lv_ws wit_level) (fst (lv_left wit_level)) (lv_zoom wit_level)).
+  { unfold level_ok. split; [reflexivity|]. split; [vm_compute; discriminate|]. split; [vm_compute; discriminate|].
+    split; [vm_compute; discriminate|]. split; apply zoom_idx_contract; vm_compute; discriminate. }
   destruct (Hl Hok) as (_ & _ & Hspec). cbv zeta in Hspec.
   destruct (Hspec 0 0) as (pr & pc & lo & hi & A & B & _ & _ & HG & HP).
   { vm_compute. split; [discriminate | reflexivity]. }
